@@ -108,6 +108,15 @@ impl Prop for C12Prop {
             f[ci].remove(yi);
             families.push(("foreign_replaces_member".into(), f));
         }
+        // the order of the calls varies (every call runs on the same thread): a rejected family before an accepted
+        // one, the cancelling family right after a family that was rejected half-way, ...
+        rng.shuffle(&mut families);
+        if let Some(c) = families.iter().find(|f| f.0 == "overlap_and_omission_cancel").cloned() {
+            if let Some(f) = families.iter().find(|f| f.0 == "foreign").cloned() {
+                families.push(("foreign_again".into(), f.1));
+            }
+            families.push(("overlap_and_omission_cancel_again".into(), c.1));
+        }
         let pick = rng.below(families.len());
         // every family is evaluated; `pick` only decides the order of emphasis in samples
         let _ = pick;
@@ -194,7 +203,7 @@ impl Prop for C12Prop {
         }
     }
     fn rule(&self) -> String {
-        "graphs of every kind (n <= 20) with families of node sets: a random set partition, singletons, one set, a partition plus an empty set, and non-partitions built by mutation (a member duplicated into a second set, a member dropped, a foreign name added, a foreign name replacing a member, and the cancelling combination of one duplicate and one omission whose sizes still sum to n); is_partition vs the set-theoretic definition; modularity (weighted / unweighted, resolution in (0,3] and default) vs Newman's formula from the stored edge list at 1e-9 on true partitions, NotAPartition otherwise; 2 hash keyings (summation order). distinct_nontrivial = distinct (graph, families, resolution) with >= 1 edge and >= 2 nodes; one case in 2000 is a dense graph (1-3 blocks, 60-300 nodes) with 2 100 - 12 500 stored edges under a pool of 2-16 workers (strategy thresholds)".into()
+        "graphs of every kind (n <= 20) with families of node sets: a random set partition, singletons, one set, a partition plus an empty set, and non-partitions built by mutation (a member duplicated into a second set, a member dropped, a foreign name added, a foreign name replacing a member, and the cancelling combination of one duplicate and one omission whose sizes still sum to n); is_partition vs the set-theoretic definition; modularity (weighted / unweighted, resolution in (0,3] and default) vs Newman's formula from the stored edge list at 1e-9 on true partitions, NotAPartition otherwise; 2 hash keyings (summation order). distinct_nontrivial = distinct (graph, families, resolution) with >= 1 edge and >= 2 nodes; one case in 2000 is a dense graph (1-3 blocks, 60-300 nodes) with 2 100 - 12 500 stored edges under a pool of 2-16 workers (strategy thresholds); in a third of the cases a battery of valid unjudged calls runs first on a sibling graph (same names and edges, other node order), in a fifth the graph is queried on the same object before its last one to three operations are applied (DESIGN.md 0.2); the families are evaluated in a seeded order on one thread, the rejected (foreign name) and the cancelling family once more at the end; dense graphs of up to 17 000 edges".into()
     }
     fn assumptions(&self) -> Vec<String> {
         vec!["a family containing empty sets is a partition iff its non-empty sets are (the definition only speaks of disjointness, membership and cover)".into(), "weighted modularity only on graphs whose edges all carry weights".into()]
